@@ -203,6 +203,11 @@ def gen_query(rng, nyears, small=False):
     r = rng.random()
     if r < 0.08:
         yo = -rng.choice([1, 5])        # before the first onset
+    elif r < 0.2:
+        # the last years of a finite component and beyond its last onset
+        # (not judged for value there: no exception, same answer as a
+        # never-queried copy)
+        yo = nyears + rng.choice([-2, -1, 0, 1, 7])
     return ["q", yo, rng.choice(["start", "end"]),
             rng.choice([-86400, -3600, -1800, -1, 0, 1, 1800, 3600, 86400,
                         rng.randrange(-5 * 10 ** 6, 5 * 10 ** 6)]),
@@ -224,8 +229,19 @@ def generate(cls, rng):
     nyears = rng.choice([3, 4, 6]) if small else \
         rng.choice([4, 8, 12, 25, 41])
     if form in ("rdate", "rrule_count"):
-        nyears = min(nyears, 12)
+        # finite components: the number of onsets around the recurrence
+        # cache's batch size of ten matters
+        nyears = rng.choice([3, 4, 6, 10]) if small else \
+            rng.choice([4, 8, 9, 10, 11, 12, 20])
     other, other_form = gen_zone_spec(rng)
+    if rng.random() < 0.5:
+        # a neighbour in the same file that differs in one aspect only
+        # (e.g. the same RRULE text with another DTSTART time of day)
+        other, other_form = PX.gen_sibling(rng, spec), form
+        if form in ("rrule", "rrule_count"):
+            for r in (other["start"], other["end"]):
+                if r[-1] >= 86400:
+                    r[-1] = 82800
     sc = dict(spec=spec, form=form, nyears=nyears,
               daylight_first=rng.random() < 0.5,
               fold_width=rng.choice([None, None, 30, 75]),
@@ -370,6 +386,15 @@ class ZoneUnderTest(object):
             ts = self.first_any - 86400 * 200 * (-yo)
         return ts
 
+    def judged_instant(self, q):
+        """The instant whose rules decide the answer to q: for the imaginary
+        wall times of the gap modes that is the onset the gap belongs to, not
+        the (unused) delta-shifted instant."""
+        if q[4].startswith("gap"):
+            a, _b = PX.transitions_utc(self.spec, Y0 + max(q[1], 0))
+            return a
+        return self.instant(q)
+
     def judged_by_model(self, ts):
         if ts < self.first_all:
             return False
@@ -455,8 +480,10 @@ def judge_query(zut, ctx, who, q, got):
                            tz=PX.tz_string(zut.spec), form=zut.sc["form"]))
         return
     # same handling of gaps and folds as the tzrange of the same rules
+    tj = zut.judged_instant(q)
     if zut.tzrange is not None and zut.judged_by_model(ts) and \
-            ts >= zut.first_all + 86400 * 370:
+            zut.judged_by_model(tj) and \
+            min(ts, tj) >= zut.first_all + 86400 * 370:
         ref = zut.ask(zut.tzrange, q)
         if tuple(ref[:3]) != tuple(got[:3]) or \
                 (q[4] == "utc" and ref[3] != got[3]):
